@@ -66,6 +66,9 @@ func idxAlphabet(extra bool) (calls []e1.Call, ids [][]interface{}) {
 	add(cReplace("d", "c", bD("_id", int32(2)), bD("a", int32(1)), false))
 	add(cReplace("d", "c", bD("_id", int32(8)), bD("a", int32(2), "b", int32(1)), true), int32(8))
 	add(cFindOneAndUpdate("d", "c", bD("a", int32(2)), bD("$set", bD("a", int64(1))), nil, true, false))
+	// sorted one-document writes: the document acted on is not the first in insertion order
+	add(cFindOneAndUpdate("d", "c", bD(), bD("$set", bD("b", int32(5))), bD("a", int32(-1), "_id", int32(-1)), true, false))
+	add(cFindOneAndDelete("d", "c", bD(), bD("_id", int32(-1))))
 	bulk := func() []mongo.WriteModel {
 		return []mongo.WriteModel{
 			mongo.NewInsertOneModel().SetDocument(bD("_id", int32(3), "a", int32(1))),
